@@ -907,6 +907,18 @@ def analyse(sc, res, drv):
             props = ["C17"] if announcements_ok(starts[:nh], got[:nh]) else ["C16"]
             if e > 0 and "C17" not in props:
                 props.append("C17")
+            # a retained registration that was not started although its name is registered in another context as well:
+            # instances are kept per (context, name), not per name (C16)
+            regs_h = {f["id"]: f for f in hist if unhx(f["topic"]).endswith(".register")}
+            ctxs_of = {}
+            for f in regs_h.values():
+                ctxs_of.setdefault(unhx(f["topic"]), set()).add(f["ctx"])
+            started_now = {h for k, h, _ in got if k == "registered"}
+            for x in starts[:nh]:
+                f = regs_h.get(x["hid"])
+                if f is not None and x["valid"] and x["hid"] not in started_now and len(ctxs_of.get(unhx(f["topic"]), ())) >= 2 \
+                        and "C16" not in props:
+                    props.append("C16")
             fnd.append({"kind": "announce", "props": props, "epoch": e, "why": "handlers started / announced differ from the model",
                         "diff": diff, "model": [[x["hid"][-6:], x["valid"], (x["superseded_by"] or "")[-6:]] for x in starts],
                         "impl": [[k, h[-6:], (f or "")[-6:]] for k, h, f in got]})
